@@ -45,7 +45,7 @@ fn faulty_net(rng: &mut Rng, fault_ns: u64, harsh: bool) -> NetCfg {
             blackout_to_clients: harsh && rng.chance(0.1),
         });
     }
-    NetCfg { latency_ms: *rng.pick(&[0u64, 1, 10, 50, 150]), phases, drop_rules: Vec::new(), handshake_faults_only: false }
+    NetCfg { latency_ms: *rng.pick(&[0u64, 1, 10, 50, 150]), phases, drop_rules: Vec::new(), handshake_faults_only: false, error_delay_ns: None }
 }
 
 /// C07 ("the random nonce the server sent it"): the nonces a server hands out must not follow from
@@ -85,8 +85,32 @@ fn check_server_nonces_unpredictable(w: &mut World) {
     }
 }
 
+/// C07 ("stale, duplicated or forged handshake frames never ... reset ... a connection"): a client
+/// object that has reported Connect never reports a handshake error (version / configuration /
+/// server full) afterwards — those answer a SYN, and its SYN was answered with the SYN-ACK it
+/// connected on; a refusal of an earlier copy of that SYN that arrives late is stale.
+fn check_no_handshake_error_after_connect(w: &mut World) {
+    let mut first: Option<String> = None;
+    for (i, c) in w.clients.iter().enumerate() {
+        let tc = match c.events.iter().position(|e| e.ev == Ev::Connect) {
+            Some(k) => k,
+            None => continue,
+        };
+        w.c.inc("c07_connected_client_objects_watched_for_handshake_errors");
+        if let Some(e) = c.events[tc..].iter().find(|e| matches!(e.ev, Ev::Error(k) if k != "timeout")) {
+            if first.is_none() {
+                first = Some(format!("client object {} ({}) reported Connect at t={} ms and then {:?} at t={} ms: a handshake error ended an established connection (the server {} the connection at that moment)", i, c.addr, c.events[tc].t_ns / MS, e.ev, e.t_ns / MS, if w.server.events.iter().any(|(a, x)| *a == c.addr && x.ev == Ev::Connect && x.t_ns <= e.t_ns) { "had reported" } else { "had not yet reported" }));
+            }
+        }
+    }
+    if let Some(m) = first {
+        w.viol("C07", "handshake-error-on-established-client", m);
+    }
+}
+
 fn world_out(out: &mut ScnOut, w: &mut World, nontrivial: bool, sig_extra: u64, sample: Option<J>) {
     check_server_nonces_unpredictable(w);
+    check_no_handshake_error_after_connect(w);
     out.evals += 1;
     if nontrivial {
         out.nontrivial += 1;
@@ -1350,6 +1374,27 @@ pub fn run_ep_ideal(seed: u64, params: &Params, out: &mut ScnOut) {
             w.c.inc("ep_ideal_sessions_with_predecessor");
         }
     }
+    // another fifth: a predecessor that never got beyond its SYN — a client with OTHER limits (it
+    // could hold much more) that was started at this address and went away at once; the server's
+    // half-open handshake for it is still pending (22 s) when the client proper starts 2.5..15 s
+    // later, and nothing of the first SYN may stick to the connection that is eventually made
+    let pre_half_open = !tiny && !pre && prng.chance(0.2);
+    if pre_half_open {
+        let mut pc = ccfg.clone();
+        pc.max_receive_alloc = *prng.pick(&[50_000_000usize, 1 << 32, usize::MAX]);
+        pc.max_receive_rate = *prng.pick(&[50_000_000usize, 1 << 32]);
+        pc.max_packet_size = ccfg.max_packet_size;
+        if let Some(p) = w.connect_client(pc, addr, (10 * MS, 10 * MS), None) {
+            w.drop_client(p);
+            let until = w.now_ns + prng.range(2500, 15_000) * MS;
+            while w.now_ns < until {
+                if w.step_next().is_none() {
+                    w.now_ns += 10 * MS;
+                }
+            }
+            w.c.inc("ep_ideal_sessions_after_a_half_open_handshake");
+        }
+    }
     let ci = match w.connect_client(ccfg.clone(), addr, *rng.pick(&cads), None) {
         Some(i) => i,
         None => {
@@ -1391,7 +1436,7 @@ pub fn run_ep_ideal(seed: u64, params: &Params, out: &mut ScnOut) {
         let c_up = w.clients[ci].state == 1;
         let s_up = w.server.conn_state.get(&addr) == Some(&1);
         s_was_up |= s_up;
-        if w.clients[ci].state == 2 || (w.server.conn_state.get(&addr) == Some(&2) && (s_was_up || !pre)) {
+        if w.clients[ci].state == 2 || (w.server.conn_state.get(&addr) == Some(&2) && (s_was_up || !(pre || pre_half_open))) {
             break;
         }
         // C14 at endpoint level: the allowed rate of either sender never exceeds the ceiling that
@@ -1465,7 +1510,8 @@ pub fn run_ep_ideal(seed: u64, params: &Params, out: &mut ScnOut) {
         let want_syn = (cap(ccfg.max_receive_rate) as u32, cap(ccfg.max_packet_size) as u32, cap(ccfg.max_receive_alloc) as u32);
         let want_synack = (cap(scfg_ep.max_receive_rate) as u32, cap(scfg_ep.max_packet_size) as u32, cap(scfg_ep.max_receive_alloc) as u32);
         let mut bad: Option<String> = None;
-        for r in w.wire.iter() {
+        let t_main = w.clients[ci].created_ns;
+        for r in w.wire.iter().filter(|r| r.t_ns >= t_main) {
             match r.frame {
                 Some(RFrame::Syn { max_receive_rate, max_packet_size, max_receive_alloc, .. }) if r.src == addr => {
                     w.c.inc("ep_advertised_limits_checked");
@@ -2448,7 +2494,9 @@ pub fn run_disconnect(seed: u64, params: &Params, out: &mut ScnOut) {
         max_send_rate: *rng.pick(&[100_000usize, 2_000_000]),
         max_receive_rate: *rng.pick(&[100_000usize, 2_000_000]),
         max_packet_size: 30_000,
-        max_receive_alloc: *rng.pick(&[100_000usize, 1_000_000]),
+        // (also exact multiples of the fragment size, small enough for the queue to fill them: the
+        // sender's and the receiver's idea of "rounded up to a whole fragment" must be the same number)
+        max_receive_alloc: *rng.pick(&[100_000usize, 1_000_000, 21 * 1448, 30 * 1448, 69 * 1448, 1_000_000]),
         keepalive: true,
         keepalive_interval_ms: 2000,
         active_timeout_ms: *rng.pick(&[10_000u64, 20_000]),
@@ -2701,8 +2749,8 @@ fn check_syn_handling(w: &mut World) {
         if answered {
             continue;
         }
-        let reason = intervals.iter().any(|(a, c, e, by_peer)| *a == x && *c <= t + gap && (*e == u64::MAX || e.saturating_add(if *by_peer { 21 * SEC } else { SEC }) >= t))
-            || synacks.get(&x).map_or(false, |v| v.iter().any(|&(ts, _)| ts <= t + gap && t <= ts + 23 * SEC));
+        let reason = intervals.iter().any(|(a, c, e, by_peer)| *a == x && *c <= t + gap && (*e == u64::MAX || e.saturating_add(if *by_peer { 21 * SEC } else { SEC } + gap) >= t))
+            || synacks.get(&x).map_or(false, |v| v.iter().any(|&(ts, _)| ts <= t + gap && t <= ts + 23 * SEC + 11 * gap));
         if !reason && deaf.is_none() {
             let last = synacks.get(&x).and_then(|v| v.iter().filter(|s| s.0 <= t).last().map(|s| s.0));
             deaf = Some(format!("a SYN from {} delivered to the server at t={} ms got no reply within two steps, although the server holds no connection of that address (none reported and open, none ended by the peer in the last 21 s) and the last SYN-ACK it sent there was at {:?} ms (a pending handshake lives 22 s)", x, t / MS, last.map(|v| v / MS)));
@@ -2832,6 +2880,9 @@ fn check_admissions(w: &mut World, max_total: usize) {
     // entries beyond that.
     let max_active = w.server.max_active;
     let slack = 150 * MS;
+    // (timers fire at the server's next step: an entry outlives its documented time by up to one
+    // step interval, a pending handshake — eleven timers in a row — by up to eleven)
+    let lag = w.server.max_step_gap_ns;
     let mut first_unjustified: Option<String> = None;
     let refusals: Vec<(u64, SocketAddr)> = w.wire.iter().filter(|r| r.src == srv && !r.injected && matches!(r.frame, Some(RFrame::Error { error: 2, .. }))).map(|r| (r.t_ns, r.dst)).collect();
     // how each established interval ended
@@ -2849,7 +2900,7 @@ fn check_admissions(w: &mut World, max_total: usize) {
                 continue;
             }
             let linger = if *e != u64::MAX && ended_by_peer_disconnect(a, *e) { 20 * SEC } else { 0 };
-            if *c <= t + slack && (*e == u64::MAX || e.saturating_add(linger + SEC) >= t) {
+            if *c <= t + slack && (*e == u64::MAX || e.saturating_add(linger + SEC + lag) >= t) {
                 if !held.contains(a) {
                     held.push(*a);
                 }
@@ -2866,7 +2917,7 @@ fn check_admissions(w: &mut World, max_total: usize) {
             for &(ts, n, na) in ly.iter() {
                 let first_of_pair = prev != Some((n, na));
                 prev = Some((n, na));
-                if first_of_pair && ts <= t + slack && t <= ts + 23 * SEC {
+                if first_of_pair && ts <= t + slack && t <= ts + 23 * SEC + 11 * lag {
                     held.push(*y);
                     break;
                 }
@@ -2901,6 +2952,12 @@ pub fn run_limits(seed: u64, params: &Params, out: &mut ScnOut) {
         }
         _ => {}
     }
+    // a quarter: the server's refusals travel 2.1..9 s longer than everything else, so that a
+    // refused client's SYN resend (same nonce, 2 s later) may have been accepted — capacity freed
+    // meanwhile — before the refusal of its first SYN arrives: an established client ignores it
+    if Rng::new(seed ^ 0xde1a).chance(0.25) {
+        net.error_delay_ns = Some((2100 * MS, 9000 * MS));
+    }
     let mut w = World::new(seed, net, verbose);
     maybe_send_faults(&mut w, seed, params, 40 * SEC);
     let mut xrng = Rng::new(seed ^ 0xc055);
@@ -2916,8 +2973,18 @@ pub fn run_limits(seed: u64, params: &Params, out: &mut ScnOut) {
     let errors_on = rng.chance(0.5);
     let mut sep = mk(&mut rng);
     sep.max_send_rate = *rng.pick(&[20_000usize, 100_000, 2_000_000]);
+    // one server in eight is stepped rarely: every step comes a little later than its own active
+    // timeout after the previous one, so that at the start of each step every established
+    // connection's deadline has passed — and is pushed forward again by the frames that step reads
+    // (a step reads its socket before it looks at its timers): those connections are alive and count
+    let slow_server = Rng::new(seed ^ 0x510e).chance(0.12);
+    if slow_server {
+        sep.active_timeout_ms = *Rng::new(seed ^ 0x510f).pick(&[1000u64, 2000, 3000]);
+        w.c.inc("c17_servers_stepped_less_often_than_their_active_timeout");
+    }
+    let server_cadence = if slow_server { (sep.active_timeout_ms * MS + 100 * MS, sep.active_timeout_ms * MS + 400 * MS) } else { (10 * MS, 10 * MS) };
     let scfg = uflow::server::Config { max_total_connections: max_total, max_active_connections: max_active, enable_handshake_errors: errors_on, endpoint_config: sep };
-    w.bind_server(scfg, (10 * MS, 10 * MS));
+    w.bind_server(scfg, server_cadence);
     // arrival schedule: burst, staggered, or waves
     let arrive: Vec<u64> = (0..n_clients)
         .map(|k| match pattern {
@@ -3075,6 +3142,17 @@ pub fn run_limits(seed: u64, params: &Params, out: &mut ScnOut) {
         }
     }
     check_admissions(&mut w, max_total);
+    // how often the delayed-refusal case really arises: a refusal echoing the client's nonce read
+    // by a client object that is established at that moment
+    for c in w.clients.iter() {
+        if let (Some(tc), Some(n)) = (c.events.iter().find(|e| e.ev == Ev::Connect).map(|e| e.t_ns), c.syn_nonce) {
+            let t_end = c.events.iter().find(|e| matches!(e.ev, Ev::Disconnect | Ev::Error(_) | Ev::AppDrop)).map_or(u64::MAX, |e| e.t_ns).min(c.dropped_ns.unwrap_or(u64::MAX));
+            let k = w.delivered.iter().filter(|d| d.dst == c.addr && d.t_ns >= c.created_ns && matches!(d.frame, Some(RFrame::Error { nonce_ack, .. }) if nonce_ack == n) && d.read_ns.map_or(false, |r| r > tc && r < t_end)).count();
+            if k > 0 {
+                w.c.add("c07_refusals_of_an_earlier_syn_read_by_established_clients", k as i128);
+            }
+        }
+    }
     check_syn_handling(&mut w);
     check_reack(&mut w);
     // phase 2: everything ends; after the closed linger capacity must be available again
